@@ -142,9 +142,10 @@ def run_task(task):
     else:
         small = [frozenset(G), frozenset(G) | pm.DEFAULT_ON, frozenset(['hoist_literals']), frozenset(['rename_locals']), frozenset(['rename_globals'])]
         trigs = ["obs(eval('1'))", "obs(sorted(k for k in globals() if len(k)<3 and k!='cm'))", 'from os.path import *'] if tier == 'thorough' else ["obs(sorted(k for k in globals() if len(k)<3 and k!='cm'))"]
-        plan = None
         if tier == 'quick':
             plan = [(1, 'full', 'full', lambda i, n: 'mid', (False,)), (2, 'core', 'core', lambda i, n: 'core', (False,))]
+        else:
+            plan = [(1, 'full', 'full', lambda i, n: 'full', (False,)), (2, 'mid', 'mid', lambda i, n: 'core', (False,))]
         for desc, src in scope_engine.programs(tier, part, nparts, plan):
             for t in trigs:
                 examine('scope+trigger:' + desc, src + t + '\n', small, res)
